@@ -21,7 +21,9 @@ META = {
                    'computed independently (incomplete beta function, pure python), and k_val95 is constant-folded for every integer in '
                    'the quantifier. Decides orthonormality, handedness, the transposition pattern (hence mutual inverses, symmetry, '
                    'eigenvalue and trace preservation by form), the ellipse and relative-error algebra and the whole table. '
-                   'Ill-conditioned floating-point behaviour is not decided.',
+                   'Also: no square root of error_ellipse receives a negative argument on eight singular (rank-one) witness matrices '
+                   '(IEEE evaluation of the straight-line body by the checker\'s own interpreter); no definite-only linear algebra on the covariances; '
+                   'in-place dtype rule. Other ill-conditioned floating-point behaviour is not decided.',
 }
 
 ORACLE = '''
